@@ -229,9 +229,17 @@ def run(ctx):
         ("awaiter", "read"): (("set", "sender_dropped_without_set"), {AWAITING}),
         ("awaiter", "drop"): ("destroy_awaiter", None),
     }
+    # An accessor whose whole body is the cell access may also appear inlined at its call site (the helper was merged, made
+    # generic or removed): the access is then judged by the obligation its call site carries.
+    ACCESSOR = {("value", "read"): "poll_set", ("value", "drop"): "destroy_value", ("awaiter", "drop"): "destroy_awaiter"}
+    inline_sites = {"poll_set": [], "destroy_value": [], "destroy_awaiter": []}
     for b, bb, t, cell, kind in accesses:
         want_fn, want_vals = table.get((cell, kind), (None, None))
         names = want_fn if isinstance(want_fn, tuple) else (want_fn,)
+        acc = ACCESSOR.get((cell, kind))
+        if acc and b.name not in names and not any(x.key.endswith(f"sync::Event::{acc}") for x in prog.bodies):
+            inline_sites[acc].append((b, bb, t))
+            continue
         ok = b.name in names
         det = f"{cell} {kind} in {b.name} (sanctioned: {names})"
         if ok and want_vals is not None:
@@ -239,19 +247,31 @@ def run(ctx):
             ok = vals is not None and vals <= want_vals and bool(vals)
             det += f"; guarded by previous state in {sorted(vals) if vals is not None else None} (required subset of {sorted(want_vals)})"
         ctx.ob("R1.state-guards-cell", f"{cell}.{kind}@{b.name}", ok, b.loc(t["span"]), det)
+    # a single-purpose accessor performs its access on EVERY path (no type- or size-dependent shortcut: a zero-sized payload
+    # still has a destructor to run, an awaiter still owns a waker)
+    for (cell, kind), acc in ACCESSOR.items():
+        ab = fn.get(acc)
+        if ab is None:
+            continue
+        sites = [bb for (bd, bb, t, c2, k2) in accesses if bd is ab and c2 == cell and k2 == kind]
+        pc = path_count(ab, sites)
+        ctx.ob("R1.state-guards-cell", f"{acc}.always-{kind}s", pc == (1, 1), ab.loc(),
+               f"{acc}() {kind}s the {cell} cell exactly once on every normal path: per path {pc}" +
+               ("" if pc == (1, 1) else " - a path that skips it leaks the payload / waker (never destroyed) or, for a read, returns an uninitialised value"))
     # call sites of the single-purpose accessors must be guarded
     guards = {
         "poll_set": {SET},
         "destroy_value": {DISCONNECTED},
     }
     for acc, want in guards.items():
-        for b, bb, t in who_calls(prog, f"sync::Event::{acc}"):
+        for b, bb, t in list(who_calls(prog, f"sync::Event::{acc}")) + inline_sites[acc]:
             vals = state_guard_values(b, bb)
             ok = vals is not None and bool(vals) and vals <= want
             ctx.ob("R1.state-guards-cell", f"{acc}<-{b.name}", ok, b.loc(t["span"]),
                    f"{acc}() called from {b.name} under observed state {sorted(vals) if vals is not None else 'UNGUARDED'} (required {sorted(want)})")
     # destroy_awaiter: receiver only, after its own CAS outcome
-    for b, bb, t in who_calls(prog, "sync::Event::destroy_awaiter"):
+    destroy_awaiter_sites = list(who_calls(prog, "sync::Event::destroy_awaiter")) + inline_sites["destroy_awaiter"]
+    for b, bb, t in destroy_awaiter_sites:
         ok = b.name in ("poll_bound", "poll_awaiting", "final_poll")
         det = f"destroy_awaiter() called from {b.name}"
         if ok:
@@ -338,7 +358,7 @@ def run(ctx):
     # ---------------- R4
     b = fn["poll_bound"]
     cas = [e for e in atomic_events(b) if e["op"].startswith("compare_exchange")]
-    da = [bb for bb, t in calls_to(b, "sync::Event::destroy_awaiter")]
+    da = [bb for bd, bb, t in destroy_awaiter_sites if bd is b]
     if len(cas) == 1:
         from .c06 import failure_side
         fs = failure_side(b, cas[0])
